@@ -226,15 +226,27 @@ func VerifC05_NameTruncation() {
 	}
 }
 
-// VerifC05_MsgTextTruncation: evaluated message text never exceeds
-// MaxTemplateChars characters, for every limit in [0,5]; no panic.
-// cover: msg-created, truncated
+// VerifC05_MsgTextTruncation: evaluated message text and quick replies never
+// exceed MaxTemplateChars characters, for every limit in [0,5], whether the
+// template is plain text, contains an evaluated expression, or contains an
+// expression that fails to evaluate (the rest of the template is still
+// produced); no panic.
+// cover: msg-created, truncated, evaluated-expression, failing-expression
 func VerifC05_MsgTextTruncation() {
 	limit := zzverif.Choice("max-template-chars", 6)
 	n := limit + zzverif.Choice("excess", 3)
 	text := verifLongText("text", n, 3)
+	tpl := text
+	switch zzverif.Choice("template-shape", 3) {
+	case 1:
+		tpl = "@contact.name " + text
+		zzverif.Cover("evaluated-expression")
+	case 2:
+		tpl = "@(1 / 0) " + text
+		zzverif.Cover("failing-expression")
+	}
 	sa := verifNewAssets()
-	verifOneNodeFlow(sa, actions.NewSendMsg("a2", text, nil, nil, false))
+	verifOneNodeFlow(sa, actions.NewSendMsg("a2", tpl, nil, []string{tpl}, false))
 	eng := NewBuilder().WithMaxTemplateChars(limit).Build()
 	sess, sp, err := eng.NewSession(sa, verifManualTrigger(sa, verifContact(sa)))
 	zzverif.Assert(err == nil && sess != nil, "NewSession failed")
@@ -242,7 +254,10 @@ func VerifC05_MsgTextTruncation() {
 		if mc, ok := e.(*events.MsgCreatedEvent); ok {
 			zzverif.Cover("msg-created")
 			zzverif.Assert(utf8.RuneCountInString(mc.Msg.Text()) <= limit, "message text is longer than MaxTemplateChars")
-			if mc.Msg.Text() != text {
+			for _, q := range mc.Msg.QuickReplies() {
+				zzverif.Assert(utf8.RuneCountInString(q) <= limit, "quick reply is longer than MaxTemplateChars")
+			}
+			if mc.Msg.Text() != tpl {
 				zzverif.Cover("truncated")
 			}
 		}
